@@ -60,6 +60,8 @@ pub fn profile_for(kind: Kind, excl: &[String]) -> Profile {
             p.budget = 300;
         }
     }
+    // (accepted with a warning on this tree; which arm runs is part of C01/C02/C03/C08)
+    p.dup_arms = true;
     p.excl_owning_in_while_cond = has("C03-F1");
     p.excl_owning_in_guard = has("C03-F2");
     p.excl_nonascii_fstring = has("C06-F2") || has("C09-F1");
